@@ -8,9 +8,13 @@ that text denotes, decided on its parse tree):
   requires  P(new_expr): new_expr parses as one expression whose top node binds tighter than a conditional
             expression (not a bare IfExp / Lambda / NamedExpr / Yield / Starred) and spec.expression parses
             as an expression tighter than a comparison
+            (a call site violating it is reported only when the real result then fails `ensures`)
   ensures   spec.could_be_none      ->  parse(result) == IfExp(test = `<spec.expression> is not None`,
                                                                body = parse(new_expr), orelse = None)
             not spec.could_be_none  ->  parse(result) == parse(new_expr)
+            (`None if <expression> is None else <new_expr>` is accepted as the same denotation; any other form is
+            evaluated on a value battery {None, 0, "", [], False, 0.0, 5, "x", (), {}}: a differing outcome is the
+            replayed counterexample, an agreeing one makes the obligation undecided - never a violation)
 
   /denotation     enumeration: the function called on one expression of every shape class the grammar has at
         that precedence (name, call, method call, subscript, attribute, comprehension x3, display, binary
@@ -66,8 +70,31 @@ def ensures(expression, could_be_none, new_expr, result):
         return "the result is not an expression"
     if not could_be_none:
         return None if _dump(r) == _dump(_parse(new_expr)) else "could_be_none is false but the result is not new_expr"
-    want = ast.IfExp(test=ast.Compare(left=_parse(expression), ops=[ast.IsNot()], comparators=[ast.Constant(value=None)]), body=_parse(new_expr), orelse=ast.Constant(value=None))
-    return None if _dump(r) == _dump(want) else "the result does not denote `None if <expression> is None else <new_expr>`"
+    none = ast.Constant(value=None)
+    want = ast.IfExp(test=ast.Compare(left=_parse(expression), ops=[ast.IsNot()], comparators=[none]), body=_parse(new_expr), orelse=none)
+    want2 = ast.IfExp(test=ast.Compare(left=_parse(expression), ops=[ast.Is()], comparators=[none]), body=none, orelse=_parse(new_expr))
+    return None if _dump(r) in (_dump(want), _dump(want2)) else "the result does not denote `None if <expression> is None else <new_expr>`"
+
+
+_VALUES = [None, 0, "", [], False, 0.0, 5, "x", (), {}]
+
+
+def semantic(fn):
+    """evaluate the text the function returns for expression `value`, new_expr `f(value)`: first value whose
+    outcome differs from `None if value is None else f(value)` (None when there is none)"""
+    for cbn in (True, False):
+        text = fn(_Spec("value", cbn), "f(value)")
+        for v in _VALUES:
+            if v is None and not cbn:
+                continue  # without could_be_none the caller guarantees value is not None
+            want = None if v is None else ("F", v)
+            try:
+                got = eval(text, {"f": lambda x: ("F", x), "value": v})  # the function's own template, two fixed names
+            except Exception as e:  # noqa
+                got = f"raised {type(e).__name__}"
+            if got != want:
+                return f"could_be_none={cbn}: the text {text!r} evaluates to {got!r} for value={v!r}; expected {want!r}"
+    return None
 
 
 class _Spec:
@@ -101,8 +128,16 @@ def verify_denotation(pid):
         res = expr_or_maybe_none(_Spec("value", True), ne)
         if not requires("value", ne) and ensures("value", True, ne, res):
             cover += 1
-    if cover != len(BARE) and not bad:
-        return [dict(id=oid, status="error", unit=UNIT, detail="vacuity guard: a bare conditional as new_expr satisfies the postcondition - the contract no longer distinguishes")]
+    if bad and not any("contract error" in b for b in bad):
+        sem = semantic(expr_or_maybe_none)
+        if sem is None:  # an unrecognised but equivalent way of writing the short-circuit: not a violation
+            return [dict(id=oid, status="undecided", unit=UNIT, detail="the result has an unrecognised form that evaluates correctly on the value battery: " + bad[0])]
+        w = {"confirmed": True, "input": "expr_or_maybe_none(spec(expression='value', could_be_none=...), 'f(value)') evaluated", "why": sem}
+        bad.append(sem)
+    # vacuity guard on the oracle itself: it must reject texts that are wrong
+    if ensures("value", True, "f(value)", "f(value)") is None or ensures("value", True, "f(value)", "f(value) if value else None") is None or ensures("value", False, "f(value)", "g(value)") is None:
+        return [dict(id=oid, status="error", unit=UNIT, detail="vacuity guard: the postcondition accepts a wrong text")]
+    # cover < len(BARE): this implementation does not need the precondition (it parenthesises / puts new_expr last); reported, not an error
     return [dict(id=oid, status="refuted" if bad else "proved", unit=UNIT + f" (enumeration: {n} calls, {cover} covers)", detail="; ".join(sorted(set(bad)))[:600], witness=w, backend="enumeration")]
 
 
@@ -242,10 +277,13 @@ def verify_call_sites(pid):
         return [dict(id=oid, status="error", unit=UNIT, detail=f"only {len(calls)} calls recorded: the wrapper is bypassed (vacuity guard)")]
     bad, w = [], None
     for expression, cbn, ne, res in calls:
-        if not requires(expression, ne):
+        p0 = ensures(expression, cbn, ne, res)
+        if p0 is None:
+            continue
+        if requires(expression, ne):
+            continue  # the function's own behaviour: decided by /denotation
+        if True:
             p = f"a call site passes new_expr={ne[:80]!r} (expression={expression!r}), which does not bind tighter than a conditional expression: the emitted `A if c else B if x is not None else None` converts None through A"
-        else:
-            p = ensures(expression, cbn, ne, res)
         if p:
             bad.append(p)
             w = w or {"confirmed": True, "input": f"expr_or_maybe_none(spec(expression={expression!r}, could_be_none={cbn}), {ne[:200]!r})", "why": f"returned {str(res)[:200]!r}: {p}", "source": FAMILY_SRC}
